@@ -460,7 +460,15 @@ SIMPLE_JOBS = [
     ("index.rs", r"impl WrappingIndex\s*\{", "new", "WrappingIndex", "WrappingIndex.new", "ctor"),
     ("index.rs", r"impl WrappingIndex\s*\{", "swap", "WrappingIndex", "WrappingIndex.swap", "mutator"),
     ("index.rs", r"impl AxisIndex\s*\{", "swap", "AxisIndex", "AxisIndex.swap", "mutator"),
+    ("lib.rs", r"impl<T> Matrix<T>\s*\{", "order", "Hdr", "Matrix.order", "hdr-getter"),
+    ("lib.rs", r"impl<T> Matrix<T>\s*\{", "major", "Hdr", "Matrix.major", "hdr-delegate"),
+    ("lib.rs", r"impl<T> Matrix<T>\s*\{", "minor", "Hdr", "Matrix.minor", "hdr-delegate"),
+    ("lib.rs", r"impl<T> Matrix<T>\s*\{", "major_stride", "Hdr", "Matrix.major_stride", "hdr-delegate"),
+    ("lib.rs", r"impl<T> Matrix<T>\s*\{", "minor_stride", "Hdr", "Matrix.minor_stride", "hdr-delegate"),
 ]
+# what `self.shape.<method>()` means on the axis shape (the two strides are T2 functions of Gen/Core.lean,
+# whose closed forms are bridge lemmas; here the delegation itself is recorded)
+SHAPE_METHODS = {"major": "self_.shape.major", "minor": "self_.shape.minor", "major_stride": "self_.shape.minor", "minor_stride": "1"}
 ENUM_CTORS = {"RowMajor": ".rowMajor", "ColMajor": ".colMajor"}
 SCALAR_TY = {"Shape": "Nat", "AxisShape": "Nat", "Index": "Nat", "AxisIndex": "Nat", "WrappingIndex": "Int"}
 
@@ -492,6 +500,15 @@ def translate_simple(src, hint, name, ty, lean_name, kind):
         m = re.fullmatch(r"self\.(\w+)", body)
         if not m: raise Untranslatable(f"getter body {body!r}")
         return f"def {lean_name} (self_ : {ty}) : {scalar} := self_.{m.group(1)}\n"
+    if kind == "hdr-getter":
+        m = re.fullmatch(r"self\.(\w+)", body)
+        if not m or m.group(1) not in ("order",): raise Untranslatable(f"getter body {body!r}")
+        return f"def {lean_name} (self_ : Hdr) : Order := self_.{m.group(1)}\n"
+    if kind == "hdr-delegate":
+        m = re.fullmatch(r"self\.shape\.(\w+)\(\)", body)
+        if not m or m.group(1) not in SHAPE_METHODS: raise Untranslatable(f"delegation body {body!r}")
+        return (f"/-- delegates to `AxisShape::{m.group(1)}` -/\ndef {lean_name} (self_ : Hdr) : Nat := {SHAPE_METHODS[m.group(1)]}\n"
+                f"def {lean_name}_delegate : String := \"{m.group(1)}\"\n")
     if kind == "ctor":
         params = re.findall(r"(\w+) ?: ?[iu]size", sig)
         fields = struct_lit(body)
